@@ -3,11 +3,11 @@ from props.filegen import *
 
 THEOREMS = ["C01_roundtrip", "C01_roundtrip_under_every_schedule", "C03_decrypt_of_any_accepted_file_under_every_schedule", "SRC_loads", "SRC_export",
             # end to end on the translated source: encryption and decryption of accepted files both PROVED (DESIGN Part G)
-            "SRC_execute_encrypt_is_model", "SRC_execute_decrypt_is_model_on_accepted_files", "SRC_encrypted_file_decrypts_to_the_plaintext", "SRC_roundtrip", "SRC_encrypted_file_verifies", "SRC_whole_program_layout_ok",
+            "SRC_execute_encrypt_is_model", "SRC_execute_decrypt_is_model_on_accepted_files", "SRC_encrypted_file_decrypts_to_the_plaintext", "SRC_roundtrip", "SRC_encrypted_file_verifies", "SRC_execute_encrypt_is_model_any_budget", "SRC_execute_decrypt_is_model_on_accepted_files_any_budget", "SRC_whole_program_layout_ok",
             "SRC_protocol_follows_PipeConc_any_stream", "SRC_scheduler_run_follows_PipeConc_any_stream"]
 
 
-def run(ck, module=("Properties_C01", "Properties_C01b", "Properties_SrcIO", "Properties_SrcE2Ef_parts", "Properties_SrcE2Ef", "Properties_SrcE2Ef_cor", "Properties_SrcE2Ef_round", "SrcRun5"), theorems=THEOREMS, finish=True):
+def run(ck, module=("Properties_C01", "Properties_C01b", "Properties_SrcIO", "Properties_SrcE2Ef_parts", "Properties_SrcE2Ef", "Properties_SrcE2Ef_cor", "Properties_SrcE2Ef_round", "Properties_SrcE2Ef_budget", "SrcRun5"), theorems=THEOREMS, finish=True):
     ck.prove(module, theorems)
     exe = small_driver(ck)
     env = small_env(ck)
